@@ -142,7 +142,7 @@ func insertAt(r *hx.RNG, hs []p1x.Hdr, h p1x.Hdr) []p1x.Hdr {
 // carry a close signal (Connection: close, HTTP/1.0 without keep-alive,
 // close-delimited body).
 func genExchange(r *hx.RNG, o genOpt, closeOK bool) *exch {
-	e := &exch{}
+	e := &exch{Rd: -1}
 	e.Method = methods[r.Intn(len(methods))]
 	e.Abs = r.Chance(3, 5)
 	e.PQ = genPath(r)
@@ -210,6 +210,23 @@ func genExchange(r *hx.RNG, o genOpt, closeOK bool) *exch {
 		e.RqF = "n"
 		if r.Chance(1, 5) {
 			e.RqF = "c" // explicit Content-Length: 0
+		}
+	}
+	// how the origin reads the upload: all of it, or it answers early
+	// (never together with a close signal: an origin or proxy that closes a
+	// socket with unread upload bytes makes the kernel reset the connection,
+	// which destroys the response on its way - nothing a relay can repair)
+	if e.RqF == "c" && e.BLen > 0 && !closeOK && r.Chance(1, 3) {
+		if r.Bool() { // large enough not to fit the (shrunk) socket buffers between proxy and origin
+			e.BLen = r.Range(150000, 700000)
+		}
+		switch r.Intn(4) {
+		case 0, 1:
+			e.Rd = 0
+		case 2:
+			e.Rd = r.Intn(e.BLen)
+		default:
+			e.Rd = e.BLen - 1
 		}
 	}
 
@@ -355,12 +372,48 @@ func generate(cfg *hx.Config) []hx.Case {
 			if e.SV10 {
 				cfg.Count("res=http/1.0")
 			}
+			if e.Rd >= 0 {
+				cfg.Count("origin-reads=part-of-body")
+			}
 			if e.Abs {
 				cfg.Count("target=absolute")
 			} else {
 				cfg.Count("target=origin-form")
 			}
 		}
+	}
+	// uploads the origin answers before reading them, followed by more
+	// requests on the same connection; many MiB with default socket buffers
+	// in the thorough tier
+	ne := 8
+	if cfg.Thorough() {
+		ne = 40
+	}
+	for k := 0; k < ne; k++ {
+		r := rng.Fork()
+		up := genExchange(r, genOpt{}, false)
+		for up.Method == "HEAD" { // its response shape belongs to HEAD
+			up = genExchange(r, genOpt{}, false)
+		}
+		up.Method, up.RqF, up.V10 = pick(r, "POST", "PUT"), "c", false
+		up.BLen = r.Range(200000, 900000)
+		if cfg.Thorough() && k%10 == 0 {
+			up.BLen = []int{8 << 20, 16 << 20, 48 << 20, 9<<20 + 1}[(k/10)%4]
+		}
+		up.Rd = []int{0, 0, 1, 4096, up.BLen / 2, up.BLen - 1}[r.Intn(6)]
+		if up.SBLen > 20000 {
+			up.SBLen = 20000
+		}
+		exs := []*exch{up}
+		if r.Bool() {
+			exs = []*exch{genExchange(r, genOpt{}, false), up}
+		}
+		for j := r.Range(1, 2); j > 0; j-- {
+			exs = append(exs, genExchange(r, genOpt{}, false))
+		}
+		mode := pick(r, "seq", "seq", "pipe", fmt.Sprintf("part%d", r.Intn(1<<30)))
+		cases = append(cases, caseOf(fmt.Sprintf("early%d", k), mode, exs))
+		cfg.Count("origin=answers-before-reading-upload")
 	}
 	// connection lifetime: the connection lives longer than the proxy's
 	// timeout although every pause is far below it
@@ -447,7 +500,7 @@ func H(kv ...string) []p1x.Hdr {
 }
 
 func get(path string, hs []p1x.Hdr, status int, shs []p1x.Hdr, n int, rsf string) *exch {
-	return &exch{Method: "GET", PQ: path, Hdrs: append(H("Host", "ORIGIN"), hs...), RqF: "n", BSeed: 1,
+	return &exch{Rd: -1, Method: "GET", PQ: path, Hdrs: append(H("Host", "ORIGIN"), hs...), RqF: "n", BSeed: 1,
 		Status: status, SHdrs: shs, SBLen: n, SBSeed: 2, RsF: rsf}
 }
 
@@ -526,6 +579,12 @@ func corpus() []hx.Case {
 	// partial pipelining: part of request i+1 arrives together with request i
 	for _, sd := range []string{"part1", "part2", "part3", "part4", "part5", "part6"} {
 		add("partial-next-request-"+sd, sd, post(100, "c"), post(5000, "k9"), get("/g", ae, 200, nil, 10, "c"), post(3, "c"), get("/h", ae, 200, nil, 4097, "k7"))
+	}
+	// the origin answers an upload on its head alone; the next requests follow on the same connection
+	for i, k := range []int{0, 1000, 299999} {
+		up := post(300000, "c")
+		up.Rd = k
+		add(fmt.Sprintf("origin-answers-before-reading-upload-%d", i), []string{"seq", "pipe", "part9"}[i], up, get("/after", ae, 200, nil, 7, "c"), post(10, "c"))
 	}
 	// connection older than the proxy timeout, every pause far below it
 	add("lifetime-exceeds-proxy-timeout", "life.1500.400",
